@@ -11,7 +11,7 @@ import numpy as np
 from pyPRISM.util.UnitConverter import UnitConverter
 
 PID = 'C17'
-RULE = ('cases = (dc in 1e-2..1e3 x unit nm|angstrom|m|um|pm, ec in 1e-3..1e3 x unit kJ/mol|kcal/mol|J/mol|J|eV, argument scalar or array '
+RULE = ('cases = (dc in 1e-2..1e3 x unit nm|angstrom|m|um|pm, ec in 1e-3..1e3 x unit kJ/mol|kcal/mol|J/mol|J|eV|kJ/kmol|J/mmol|K*R|K*k_B|eV/particle|mJ, argument scalar, int, float array, integer array or read-only array '
         'with magnitudes over 6 decades); every case calls the six conversion methods under the contract and probes linearity and elementwise '
         'behaviour; non-trivial = all six methods returned and were compared; distinct = distinct case digests')
 ASSUMPTIONS = ['exact SI: k_B=1.380649e-23 J/K, N_A=6.02214076e23 /mol, e=1.602176634e-19 C, thermochemical calorie 4.184 J',
@@ -25,7 +25,10 @@ KB = 1.380649e-23
 NA = 6.02214076e23
 LEN = {'nanometer': 1e-9, 'angstrom': 1e-10, 'meter': 1.0, 'micrometer': 1e-6, 'picometer': 1e-12, 'nm': 1e-9}
 ENERGY = {'kilojoule/mole': (1e3, True), 'kilocalorie/mole': (4184.0, True), 'joule/mole': (1.0, True), 'joule': (1.0, False),
-          'eV': (1.602176634e-19, False), 'kJ/mol': (1e3, True)}
+          'eV': (1.602176634e-19, False), 'kJ/mol': (1e3, True),
+          # other legal spellings of a molar / per-particle energy
+          'kJ/kmol': (1.0, True), 'J/mmol': (1e3, True), 'kJ mol^-1': (1e3, True), 'kelvin*molar_gas_constant': (KB * NA, True),
+          'kelvin*boltzmann_constant': (KB, False), 'eV/particle': (1.602176634e-19, False), 'millijoule': (1e-3, False)}
 RTOL = 1e-9
 _S = {'ctx': None, 'cfg': {}}
 METHODS = ['toKelvin', 'toCelcius', 'toInvAngstrom', 'toInvNanometer', 'toConcentration', 'toVolumeFraction']
@@ -110,7 +113,7 @@ def cases(ctx):
     for it in range(n):
         yield {'dc': float(10 ** rng.uniform(-2, 3)) if rng.random() < 0.8 else 1.0, 'dc_unit': str(rng.choice(['nanometer', 'angstrom', 'meter', 'micrometer', 'picometer', 'nm'])),
                'ec': float(10 ** rng.uniform(-3, 3)) if rng.random() < 0.8 else 2.48, 'ec_unit': str(rng.choice(list(ENERGY))),
-               'arg': str(rng.choice(['scalar', 'array', 'array', 'int'])), 'seed': int(rng.integers(0, 2 ** 31))}
+               'arg': str(rng.choice(['scalar', 'array', 'array', 'int', 'readonly', 'broadcast', 'intarray'])), 'seed': int(rng.integers(0, 2 ** 31))}
 
 
 _cache = {}
@@ -126,8 +129,14 @@ def run_case(ctx, case):
         x = float(10 ** rng.uniform(-3, 3))
     elif case['arg'] == 'int':
         x = int(rng.integers(1, 50))
+    elif case['arg'] == 'intarray':
+        x = rng.integers(1, 50, size=int(rng.integers(1, 20)))
+    elif case['arg'] == 'broadcast':
+        x = np.broadcast_to(np.array([float(10 ** rng.uniform(-3, 3))]), (int(rng.integers(2, 10)),))      # read-only view
     else:
         x = 10 ** rng.uniform(-3, 3, size=int(rng.integers(1, 40)))
+        if case['arg'] == 'readonly':
+            x.flags.writeable = False
     d = float(rng.uniform(0.3, 3.0))
     done = 0
     results = {}
@@ -135,8 +144,11 @@ def run_case(ctx, case):
         args = (x, d) if name == 'toVolumeFraction' else (x,)
         before = ctx.hooks.get('uc.' + name, 0)
         try:
-            results[name] = getattr(uc, name)(*[np.array(a) if isinstance(a, np.ndarray) else a for a in args])
+            x_before = np.array(x, copy=True) if isinstance(x, np.ndarray) else x
+            results[name] = getattr(uc, name)(*args)
             done += 1
+            if isinstance(x, np.ndarray) and not np.array_equal(x, x_before):
+                ctx.violation('uc:%s-modifies-argument' % name, '%s changed the array it was given' % name)
         except Exception as e:   # noqa - "none raises for valid numeric input"
             ctx.violation('uc:%s-raises' % name, '%s(%s) raises %s: %s' % (name, 'array' if isinstance(x, np.ndarray) else repr(x), type(e).__name__, str(e)[:150]))
     # ---- linearity (affine for Celsius) and elementwise behaviour
